@@ -1,4 +1,5 @@
 //! vh: harness that drives the real ipc-channel crate for the correspondence check.
+mod api;
 #[cfg(feature = "async")]
 mod asyncd;
 mod codec;
@@ -33,6 +34,7 @@ fn main() {
         "conc" => conc::run(),
         "codec" => codec::run(),
         "prog" => prog::run(),
+        "api" => api::run(),
         "res" => res::run(),
         "nestrecv" => nestrecv::run(),
         "wake" => wake::run(),
